@@ -76,7 +76,8 @@ def newBlock (num : Nat) (more : Bool) (size : Nat) : HRes (Option BlockValue) :
   | .panic => .panic
 
 /-- `negotiate_block_size_if_necessary` (after the D14 fix: a zero block budget
-is an error instead of a division by zero) -/
+is an error instead of a division by zero; after the D20 fix: a budget that leaves more room than the
+largest block size, 1024 = SZX 6, proposes that size instead of failing) -/
 def negotiate (reqBlock : Option BlockValue) (messageSize totalPayload maxTotal : Nat) :
     HRes (Option BlockValue) :=
   let maxNonPayload := (messageSize + Consts.blockOptionsMaxLength) - totalPayload
@@ -93,7 +94,7 @@ def negotiate (reqBlock : Option BlockValue) (messageSize totalPayload maxTotal 
         newBlock (start / negotiated) (decide (stop < totalPayload)) negotiated
       | none =>
         if totalPayload < maxBlock then .ok none
-        else newBlock 0 true maxBlock
+        else newBlock 0 true (min maxBlock Consts.maximumBlockSize)
 
 /-- `extending_splice(dst, start..stop, payload, max_reserve)` -/
 def extendingSplice (dst : Bytes) (start stop : Nat) (payload : Bytes) (maxReserve : Nat) :
